@@ -479,6 +479,18 @@ class MFn(tr.Fn):
             return self.cls.lean_fmt(c, "%s:%d" % (self.mod.relpath, node.lineno))
         return super().fmt_arg(node, a, env)
 
+    def as_int(self, v):
+        """a bool used as a number: True -> 1, False -> 0"""
+        if v.t == BOOL:
+            return V("(if %s = true then 1 else 0)" % v.s, INT, 0, 1)
+        return v
+
+    def binop(self, node, op, a, b):
+        if (a.t == BOOL and b.t in (INT, BOOL)) or (b.t == BOOL and a.t == INT):
+            self.notes.append("a bool operand of an arithmetic operator at line %s is the int 1 / 0" % getattr(node, "lineno", "?"))
+            return super().binop(node, op, self.as_int(a), self.as_int(b))
+        return super().binop(node, op, a, b)
+
     def values_list(self, node, args, env):
         """the int values of a `pack(…)` call: plain expressions and `*tuple` of a known length -> (lean list text, n)"""
         items, n = [], 0
@@ -531,6 +543,24 @@ class MFn(tr.Fn):
             fmt = self.fmt_arg(e, args[0], env)
             op = f.attr
             args = args[1:]
+        if isinstance(f, ast.Name) and f.id in ("int", "bool") and len(args) == 1 and f.id not in self.locals and f.id not in env \
+           and not self.mod.binds(f.id):
+            if f.id == "bool" or not self.closed_float(args[0]):
+                probe = (list(self.pre), len(self.notes), self.fresh, set(self.names))
+                v = self.expr(args[0], env)
+                if f.id == "int" and v.t == BOOL:
+                    return self.as_int(v)
+                if f.id == "bool" and v.t == BOOL:
+                    return v
+                if f.id == "bool" and v.t == INT:
+                    return V("(decide (%s ≠ 0))" % v.s, BOOL)
+                if f.id == "bool" and v.t in (BYTES, tr.BYTEARRAY, INTS):
+                    return V("(decide (%s ≠ []))" % v.s, BOOL)
+                if f.id == "bool":
+                    self.err(e, "bool() of %s" % v.t)
+                # int() of anything else: let translate.py decide (re-evaluated there)
+                self.pre, self.fresh, self.names = probe[0], probe[2], probe[3]
+                del self.notes[probe[1]:]
         if isinstance(f, ast.Attribute) and isinstance(f.value, ast.Name) and f.value.id == "struct" and "struct" not in env \
            and f.attr == "calcsize" and len(args) == 1:
             if not self.mod.imported("struct", "struct"):
@@ -611,6 +641,27 @@ class MFn(tr.Fn):
     def exc_args_ok(self, s, call, env):
         for a in call.args:
             if isinstance(a, ast.Constant):
+                continue
+            if isinstance(a, ast.JoinedStr):
+                # f"…{e}…": every formatted value an int expression that cannot raise, no conversion, at most an int format spec
+                self.guard += 1
+                try:
+                    for part in a.values:
+                        if isinstance(part, ast.Constant):
+                            continue
+                        spec_ok = part.format_spec is None or (
+                            len(part.format_spec.values) == 1 and isinstance(part.format_spec.values[0], ast.Constant)
+                            and str(part.format_spec.values[0].value)[-1:] in "dxXobn")
+                        if not isinstance(part, ast.FormattedValue) or part.conversion != -1 or not spec_ok:
+                            self.err(s, "f-string in an exception message with a conversion / non-int format spec")
+                        v = self.expr(part.value, env)
+                        if v.t != INT:
+                            self.err(s, "exception message formats %s of type %s: only ints are in the subset (formatting an int "
+                                        "cannot raise)" % (ast.unparse(part.value), v.t))
+                finally:
+                    self.guard -= 1
+                self.notes.append("the message of the exception at line %d is not modelled (its arguments are ints; formatting "
+                                  "them cannot raise)" % s.lineno)
                 continue
             ok = isinstance(a, ast.Call) and isinstance(a.func, ast.Attribute) and a.func.attr == "format" \
                 and isinstance(a.func.value, ast.Constant) and isinstance(a.func.value.value, str) and not a.keywords
